@@ -47,7 +47,11 @@ class Registry:
         return (str(x), x.type, tuple(x.fields.items()), x.uri, hash(x),
                 x._string, x._type, tuple(x._fields.items()))
 
+    paused = False
+
     def register(self, x):
+        if self.paused:
+            return
         if id(x) not in self.items:
             try:
                 self.items[id(x)] = (x, self.snap(x))
@@ -122,7 +126,7 @@ def pair_laws(rec, sids, Sid):
             rec.violation("dict_lookup", {"s": x.uri}, "equal rebuilt sid not found in dict")
 
 
-OPS = ["fields_mutate", "get_with_kw", "get_with_query", "get_as", "parent", "div", "copy", "as_query", "match", "path",
+OPS = ["copy_module", "fields_mutate", "get_with_kw", "get_with_query", "get_as", "parent", "div", "copy", "as_query", "match", "path",
        "misc", "unfold", "same_string_other_type", "rebuild", "children", "derived_mutate", "set_ops", "get_with_none"]
 
 
@@ -164,6 +168,25 @@ def run_sequence(rec, reg, model, vocab, Sid, rng, s, ops):
                 derived.append(y / rng.choice(["*", "x", "v001", "w", "ma"]))
             elif op == "copy":
                 derived.append(y.copy())
+            elif op == "copy_module":
+                import copy
+                import pickle
+                for fn in (copy.copy, copy.deepcopy, lambda z: pickle.loads(pickle.dumps(z))):
+                    try:
+                        reg.paused = True      # (the copy under construction is born empty inside copy/pickle: not yet a value)
+                        z = fn(y)
+                    except Exception:
+                        rec.count("copy_module_exception")
+                        continue
+                    finally:
+                        reg.paused = False
+                    reg.register(z)
+                    if not (z == y and str(z) == str(y) and z.type == y.type and z.fields == y.fields):
+                        rec.violation("copy_module_differs", dict(case, step=step, op=op), "%r vs %r" % (z, y))
+                    derived.append(z)
+                # empties must still be empty
+                derived.append(Sid())
+                derived.append(y.get_as("no_such_key"))
             elif op == "as_query":
                 y.as_query()
             elif op == "match":
